@@ -260,6 +260,7 @@ func checkSkipSeq(r *ev.Run, alpha []fieldEnc, seq []int, buf []byte) bool {
 
 func main() {
 	r := ev.Start("C02", "exploration")
+	ev.BigHeap(512 << 20)
 	workers := runtime.NumCPU()
 	bnd := codec.BoundaryBits()
 	tags := codec.BoundaryTags(4096)
